@@ -142,3 +142,46 @@ class _Snap:
 
 
 register(AttachUnit())
+
+
+class DeviceTypeAttribute(Unit):
+    """the facade stores the detected type on the device and reads it back to select the command set: on both transport
+    classes what is read back is what was stored, for every 5-bit type (00h included), and for opcodes likewise"""
+
+    name = "facade/attach:devicetype-attribute"
+    properties = ("C16",)
+
+    def functions(self):
+        from .device import devmod, iscsimod
+
+        fs = []
+        for K in (devmod().SCSIDevice, iscsimod().ISCSIDevice):
+            p = K.__dict__.get("devicetype")
+            if isinstance(p, property):
+                fs += [f for f in (p.fget, p.fset) if f is not None]
+        return fs
+
+    def cases(self, tier):
+        return [{"transport": t} for t in ("sgio", "iscsi")]
+
+    def inputs(self, case):
+        from pyvc.unit import U
+
+        return {"devicetype": U(5)}
+
+    def run(self, X, case, a):
+        from .device import devmod, iscsimod, world_installed, PATH, URL
+
+        w = World()
+        w.present[PATH] = True
+        w.inode[PATH] = 7
+        with world_installed(w):
+            dev = X.call(devmod().SCSIDevice, PATH) if case["transport"] == "sgio" else X.call(iscsimod().ISCSIDevice, URL, "iqn.2000-01.test:initiator")
+            X.setattr(dev, "devicetype", a.devicetype)
+            return X.getattr(dev, "devicetype")
+
+    def ensures(self, case, a, out, X):
+        yield "C16", "devicetype-read-back-is-what-the-facade-stored (%s)" % out.describe()[:40], out.kind == "return" and (out.value is a.devicetype or out.value == a.devicetype)
+
+
+register(DeviceTypeAttribute())
